@@ -47,8 +47,8 @@ def main():
         except vlib.InfraError as e:
             raise vlib.InfraError("templ generate rejected a concretised template in %s: %s" % (d, str(e)[-1500:]))
         exe = os.path.join(sc, "gen-" + d)
-        for attempt in range(3):
-            r = vlib.run(["go", "build", "-o", exe, "./gen/" + d], cwd=hd, check=False, timeout=1800)
+        for attempt in range(8):
+            r = vlib.run(["go", "build", "-gcflags=-e", "-o", exe, "./gen/" + d], cwd=hd, check=False, timeout=1800)
             if r.returncode == 0:
                 break
             err = r.stderr.decode(errors="replace")
